@@ -281,11 +281,27 @@ def picklable(rng, i):
         return gen.shape(rng, None, d=d, with_landmarks=int(rng.integers(1, 4))).landmarks, "manager"
     if k == 3:
         K = tx.kinds(d)
+        if d == 2 and rng.random() < 0.25:
+            # a spline whose documented regulariser really truncates (near-coincident landmarks / a large floor)
+            import menpo.transform as mt
+            s_, t_ = tx.tps_pair(rng)
+            sp_ = s_.points.copy()
+            sp_[1] = sp_[0] + 1e-7
+            return mt.ThinPlateSplines(ms.PointCloud(sp_), t_, min_singular_val=[1e-12, 5.0, 1e-2][rng.integers(0, 3)]), "transform"
         return tx.make(rng, K[rng.integers(0, len(K))], d)[0], "transform"
     if k == 4:
-        return PCAVectorModel(rng.normal(size=(8, 5))), "pca"
+        m_ = PCAVectorModel(rng.normal(size=(8, 5)), max_n_components=int(rng.integers(2, 5)) if rng.random() < 0.3 else None)
+        if rng.random() < 0.5:
+            # a model with a history: fewer active components, trimmed (the discarded variance is part of its state)
+            m_.n_active_components = int(rng.integers(1, m_.n_components + 1))
+            if rng.random() < 0.6 and m_.n_components > 1:
+                m_.trim_components(int(rng.integers(1, m_.n_components)))
+        return m_, "pca"
     if k == 5:
-        return PCAModel([ms.PointCloud(rng.normal(size=(4, 2))) for _ in range(7)]), "pcamodel"
+        m_ = PCAModel([ms.PointCloud(rng.normal(size=(4, 2))) for _ in range(7)])
+        if rng.random() < 0.5 and m_.n_components > 1:
+            m_.trim_components(int(rng.integers(1, m_.n_components)))
+        return m_, "pcamodel"
     from vf import gmrfmon
     g = gmrfmon.make_graph(rng, 4, ["chain", "tree", "random"][rng.integers(0, 3)])
     return GMRFVectorModel(gmrfmon.make_data(rng, 30, 4, 2), g, sparse=bool(rng.random() < 0.5)), "gmrf"
@@ -311,6 +327,20 @@ def w_pickle(ctx, rng, i):
                 why = diff(obj, back)
                 if why:
                     ctx.fail("pickle_round_trip_changed_the_object", cls=type(obj).__name__, mech=ext, why=why)
+                else:
+                    # equal state means equal behaviour: what it answers, where it sends points
+                    from vf import warm
+                    ch = warm.changed(warm.snapshot(obj), warm.snapshot(back))
+                    if kind == "transform":
+                        try:
+                            P_ = tx.probe(np.random.default_rng(5), getattr(obj, "n_dims", None) or 2, 6)
+                            a_, b_ = tx.safe_apply(obj, P_), tx.safe_apply(back, P_)
+                            if tx.maxdiff(a_[0][a_[1] & b_[1]], b_[0][a_[1] & b_[1]]) > 1e-9 * tx.BOX or (a_[1] != b_[1]).any():
+                                ch.append("apply(probe)")
+                        except Exception:
+                            pass
+                    if ch:
+                        ctx.fail("pickle_round_trip_changed_the_object", cls=type(obj).__name__, mech=ext + ":answers_changed:" + ",".join(ch[:3]))
                 if ext == ".pkl.gz" and Path(ab).read_bytes()[:2] != b"\x1f\x8b":
                     ctx.fail("gzipped_pickle_is_not_gzip", cls="pickle.gz")
     ctx.count_case(("pickle", ext, kind, type(obj).__name__, sp), nontrivial=True,
@@ -361,6 +391,29 @@ def w_images(ctx, rng, i):
                     ctx.fail("float_image_changed_by_a_quantisation_level_or_more", cls="image", mech=fmt, err=e)
             else:
                 ctx.fail("float_image_round_trip_changed_the_shape", cls="image", mech=fmt + (":1px" if min(H, W) == 1 else ""))
+        # annotated images on disk: landmarks exported next to an image come back with *that* image - also when several files
+        # share the beginning of their names (subject.01.png / subject.02.png)
+        if i % 3 == 0 and min(H, W) > 1:
+            import menpo.shape as ms
+            stems = [["subject.01", "subject.02", "subject.10"], ["face", "face_b", "face.b"], ["a.b.c", "a.b.d", "a"]][rng.integers(0, 3)]
+            want = {}
+            for st in stems:
+                im2 = mi.Image(rng.random((C, H, W)))
+                mio.export_image(im2, os.path.join(sb.dir, st + ".png"))
+                pc = ms.PointCloud(np.round(rng.uniform(0, 1, (4, 2)) * (np.array([H, W]) - 1), 3))
+                mio.export_landmark_file(pc, os.path.join(sb.dir, st + ".pts"))
+                lj = ms.PointCloud(rng.uniform(0, 1, (3, 2)) * (np.array([H, W]) - 1))
+                mio.export_landmark_file(lj, os.path.join(sb.dir, st + ".ljson"))
+                want[st] = (pc.points.copy(), lj.points.copy())
+            for st in stems:
+                got = mio.import_image(os.path.join(sb.dir, st + ".png"))
+                ctx.tap("landmarks_next_to_images", "calls"); ctx.tap("landmarks_next_to_images", "checked")
+                ok_pts = "PTS" in got.landmarks and got.landmarks["PTS"].points.shape == want[st][0].shape and np.abs(got.landmarks["PTS"].points - want[st][0]).max() <= 5.1e-4
+                ok_lj = "LJSON" in got.landmarks and got.landmarks["LJSON"].points.shape == want[st][1].shape and np.array_equal(got.landmarks["LJSON"].points, want[st][1])
+                if not ok_pts:
+                    ctx.fail("pts_coordinates_changed_beyond_three_decimals", cls="PointCloud", mech="imported_next_to_an_image:" + ("multi_dot_name" if "." in st else "plain_name"))
+                if not ok_lj:
+                    ctx.fail("ljson_coordinates_changed", cls="PointCloud", mech="imported_next_to_an_image:" + ("multi_dot_name" if "." in st else "plain_name"))
     ctx.count_case(("image", fmt, C, (min(H, 2), min(W, 2))), nontrivial=True, sample={"format": fmt, "channels": C, "shape": [H, W]} if i < 4 else None)
 
 
